@@ -98,7 +98,20 @@ class NetModel:
         self.cached: dict[str, FunctionInfo] = {}
         self.props: dict[str, FunctionInfo] = {}
         self.methods: dict[str, FunctionInfo] = {}
-        for name, fi in self.ci.methods.items():
+        # the network class and the repository base classes it is split into (same module)
+        all_methods: dict = {}
+        self.all_attrs: dict = {}
+        for c in prog.mro(self.ci.fq):
+            ci_ = prog.classes[c]
+            if ci_.module != self.mi.name:
+                continue
+            if ci_ is not self.ci:
+                set_parents(ci_.node)
+            for name, fi in ci_.methods.items():
+                all_methods.setdefault(name, fi)
+            for name, v in ci_.attrs.items():
+                self.all_attrs.setdefault(name, v)
+        for name, fi in all_methods.items():
             if fi.is_cached_property():
                 self.cached[name] = fi
             elif fi.is_property():
@@ -108,7 +121,7 @@ class NetModel:
         # properties built by module-level factories: `name = factory(CONST, ...)` in the class
         # body, where `factory` defines a getter and returns (cached_)property(getter)
         self._factory_env: dict[str, dict] = {}
-        for name, val in self.ci.attrs.items():
+        for name, val in self.all_attrs.items():
             fac = self._factory_property(val)
             if fac is None:
                 continue
@@ -170,23 +183,39 @@ class NetModel:
 
     def decorator_names(self, fi: FunctionInfo):
         """(decorator node, names of the cached lookups an `invalidate_cache(...)` lists) or
-        (None, None); `*NAMES` with NAMES a class-level tuple of lookups is expanded"""
+        (None, None); `*NAMES` with NAMES a class-level tuple of lookups (possibly built from
+        other such tuples, possibly of a base class) is expanded"""
+        def names_of(e, depth=0) -> list:
+            if depth > 6:
+                raise AnalysisError(f"invalidate_cache arguments at {fi.qualname} nest too deeply")
+            if isinstance(e, ast.Name):
+                ca, _owner = self.prog.lookup_class_attr(self.ci.fq, e.id)
+                if ca is not None and isinstance(ca, (ast.Tuple, ast.List)):
+                    return [x for el in ca.elts for x in names_of(el, depth + 1)]
+                return [e.id]
+            if isinstance(e, ast.Attribute):
+                # Class.lookup / self-less reference to a lookup of a base class
+                ca, _owner = self.prog.lookup_class_attr(self.ci.fq, e.attr)
+                if ca is not None and isinstance(ca, (ast.Tuple, ast.List)):
+                    return [x for el in ca.elts for x in names_of(el, depth + 1)]
+                return [e.attr]
+            if isinstance(e, ast.Starred):
+                v = e.value
+                if isinstance(v, (ast.Tuple, ast.List)):
+                    return [x for el in v.elts for x in names_of(el, depth + 1)]
+                if isinstance(v, (ast.Name, ast.Attribute)):
+                    nm = v.id if isinstance(v, ast.Name) else v.attr
+                    ca, _owner = self.prog.lookup_class_attr(self.ci.fq, nm)
+                    if ca is not None and isinstance(ca, (ast.Tuple, ast.List)):
+                        return [x for el in ca.elts for x in names_of(el, depth + 1)]
+                raise AnalysisError(f"unresolved *argument of invalidate_cache at {fi.qualname}")
+            raise AnalysisError(f"non-name argument of invalidate_cache at {fi.qualname}")
+
         for d in fi.node.decorator_list:
             if isinstance(d, ast.Call) and (dotted_name(d.func) or "").split(".")[-1] == "invalidate_cache":
                 names = []
                 for a in d.args:
-                    if isinstance(a, ast.Name):
-                        names.append(a.id)
-                    elif isinstance(a, ast.Starred):
-                        v = a.value
-                        if isinstance(v, ast.Name) and v.id in self.ci.attrs:
-                            v = self.ci.attrs[v.id]
-                        if isinstance(v, (ast.Tuple, ast.List)) and all(isinstance(x, ast.Name) for x in v.elts):
-                            names.extend(x.id for x in v.elts)
-                        else:
-                            raise AnalysisError(f"unresolved *argument of invalidate_cache at {fi.qualname}")
-                    else:
-                        raise AnalysisError(f"non-name argument of invalidate_cache at {fi.qualname}")
+                    names.extend(names_of(a))
                 return d, names
         return None, None
 
